@@ -95,7 +95,7 @@ func GenCase(r *core.Rng, id int, pDecor, pBad float64) *Case {
 	// use_struct_references (whose default is omitempty), an explicit `pointer: false` under
 	// optional: pointer
 	for _, df := range defs {
-		if strings.Contains(df.Text, "omitempty: false") && r.Chance(0.5) {
+		if strings.Contains(df.Text, "omitempty: false") && id%2 == 0 {
 			cfg.StructReferences = true
 		}
 		if strings.Contains(df.Text, "pointer: false") && cfg.Optional == "" && r.Chance(0.3) {
